@@ -34,6 +34,7 @@ type c15Family struct {
 	busy      map[ssa.Value]bool
 	nameSites map[string]map[*ssa.Function]bool
 	bind      map[*ssa.Parameter]string // helper parameters bound to the caller's arguments during a layout walk
+	helpers   map[*ssa.Function]*c15Family // families of same-package helpers whose calls are rendered by their result
 }
 
 func newC15Family(p *fw.Program, root *ssa.Function) *c15Family {
@@ -376,8 +377,37 @@ func (f *c15Family) atom1(v ssa.Value, depth int) string {
 			sort.Strings(as)
 			return name + "(" + strings.Join(as, ",") + ")"
 		}
+		// normal form independent of where a chain of phis is entered (the value after a loop is the
+		// header phi in a classic loop and a separate exit phi in a rotated one): all phis reachable
+		// through phi-only edges form one set; its non-phi incoming values are rendered with every phi
+		// of the set standing for "the value so far" (↺). Edges from blocks that never complete
+		// (d.Fatalf arms) carry no value.
+		var closure []*ssa.Phi
+		inSet := map[*ssa.Phi]bool{}
+		var leaves []ssa.Value
+		var collect func(ph *ssa.Phi)
+		collect = func(ph *ssa.Phi) {
+			inSet[ph] = true
+			closure = append(closure, ph)
+			for _, i := range c15LiveEdges(ph) {
+				e := ph.Edges[i]
+				if q, ok := e.(*ssa.Phi); ok {
+					if !inSet[q] {
+						collect(q)
+					}
+					continue
+				}
+				leaves = append(leaves, e)
+			}
+		}
+		collect(x)
+		var was []bool
+		for _, ph := range closure {
+			was = append(was, f.busy[ph])
+			f.busy[ph] = true
+		}
 		set := map[string]bool{}
-		for _, e := range x.Edges {
+		for _, e := range leaves {
 			s := f.sub(e, depth)
 			if strings.HasPrefix(s, "phi{") && strings.HasSuffix(s, "}") && balanced(s[4:len(s)-1]) {
 				for _, part := range splitTop(s[4:len(s)-1], '|') {
@@ -386,6 +416,11 @@ func (f *c15Family) atom1(v ssa.Value, depth int) string {
 				continue
 			}
 			set[s] = true
+		}
+		for k, ph := range closure {
+			if !was[k] && ph != x {
+				delete(f.busy, ph)
+			}
 		}
 		delete(set, "↺")
 		ks := sortedSet(set)
@@ -680,6 +715,11 @@ func (f *c15Family) call(c *ssa.Call, depth int) string {
 			}
 			return b.Name() + "(" + f.args(cc.Args, depth) + ")"
 		}
+		if c := f.fnOf(cc.Value); c != nil {
+			if s, ok := f.inlineResult(c, cc.Args, depth); ok {
+				return s
+			}
+		}
 		return "dyn:" + f.sub(cc.Value, depth) + "(" + f.args(cc.Args, depth) + ")"
 	}
 	if m, ok := isDMethod(c); ok {
@@ -696,10 +736,17 @@ func (f *c15Family) call(c *ssa.Call, depth int) string {
 			}
 		}
 		switch m {
-		case "Pos", "BitsLeft", "End", "NotEnd", "Len", "BytePos":
+		case "NotEnd":
+			return "!End@" + f.lastConsuming(c) // d.NotEnd() is !d.End()
+		case "Pos", "BitsLeft", "End", "Len", "BytePos":
 			return m + "@" + f.lastConsuming(c)
 		}
 		return m + "(" + f.args(args, depth) + ")"
+	}
+	if fw.FnPkgPath(callee) == fw.FnPkgPath(f.root) && callee.Signature.Recv() == nil {
+		if s, ok := f.inlineResult(callee, cc.Args, depth); ok {
+			return s
+		}
 	}
 	name := fw.ShortFn(callee)
 	if o := callee.Origin(); o != nil {
@@ -892,4 +939,112 @@ func c15ClampPhi(x *ssa.Phi) (string, ssa.Value, ssa.Value, bool) {
 		return "max", bo.X, bo.Y, true
 	}
 	return "", nil, nil, false
+}
+
+// c15LiveEdges: the indices of the phi's incoming edges whose predecessor block can complete
+// (an arm that ends in d.Fatalf / panic never delivers its value).
+func c15LiveEdges(ph *ssa.Phi) []int {
+	var out []int
+	for i := range ph.Edges {
+		pred := ph.Block().Preds[i]
+		if fw.CurrentNR != nil && len(pred.Preds) > 0 && fw.CurrentNR.BlockFails(pred) {
+			continue
+		}
+		out = append(out, i)
+	}
+	if len(out) == 0 {
+		for i := range ph.Edges {
+			out = append(out, i)
+		}
+	}
+	return out
+}
+
+// fnOf resolves a called value to a function of the program: a closure literal, or a local that is
+// assigned exactly one closure.
+func (f *c15Family) fnOf(v ssa.Value) *ssa.Function {
+	if c := closureOf(v); c != nil {
+		if fw.InFq(c) {
+			return c
+		}
+		return nil
+	}
+	if ld, ok := stripConv(v).(*ssa.UnOp); ok && ld.Op == token.MUL {
+		root, path := f.cellRoot(ld.X)
+		if root == nil || path != "" {
+			return nil
+		}
+		var found *ssa.Function
+		n := 0
+		for _, st := range f.stores[root] {
+			if c, ok := st.Val.(*ssa.Const); ok && c.IsNil() {
+				continue
+			}
+			n++
+			found = closureOf(st.Val)
+		}
+		if n == 1 && found != nil && fw.InFq(found) {
+			return found
+		}
+	}
+	return nil
+}
+
+// inlineResult renders a call of a small helper by what it returns: a function (package level or
+// a closure of the decoder) with exactly one return statement of one value, no captured variables
+// and no consuming decode.D call is the same thing written as a closure, as a function or in
+// place. Parameters are bound to the caller's arguments.
+func (f *c15Family) inlineResult(c *ssa.Function, args []ssa.Value, depth int) (string, bool) {
+	if depth > 24 || c.Blocks == nil || len(c.FreeVars) != 0 || c.Signature.Results().Len() != 1 || len(args) != len(c.Params) {
+		return "", false
+	}
+	var ret *ssa.Return
+	n, bad := 0, false
+	fw.EachInstr(c, func(ins ssa.Instruction) {
+		if ins.Parent() != c {
+			return
+		}
+		switch x := ins.(type) {
+		case *ssa.Return:
+			ret = x
+			n++
+		case *ssa.Call:
+			if m, ok := isDMethod(x); ok && c15Consuming(m) {
+				bad = true
+			}
+		case *ssa.Store, *ssa.MakeClosure, *ssa.Go, *ssa.Defer:
+			bad = true
+		}
+	})
+	if n != 1 || bad || len(ret.Results) != 1 {
+		return "", false
+	}
+	hf := f
+	if fw.Top(c) != f.root {
+		if f.helpers == nil {
+			f.helpers = map[*ssa.Function]*c15Family{}
+		}
+		hf = f.helpers[fw.Top(c)]
+		if hf == nil {
+			hf = newC15Family(f.p, fw.Top(c))
+			f.helpers[fw.Top(c)] = hf
+		}
+	}
+	bind := map[*ssa.Parameter]string{}
+	for i, prm := range c.Params {
+		bind[prm] = f.sub(args[i], depth+1)
+	}
+	old := hf.bind
+	// keep the bindings of enclosing helpers visible
+	merged := map[*ssa.Parameter]string{}
+	for k, v := range old {
+		merged[k] = v
+	}
+	for k, v := range bind {
+		merged[k] = v
+	}
+	hf.bind = merged
+	s := hf.sub(ret.Results[0], depth+1)
+	hf.bind = old
+	return "(" + s + ")", true
 }
